@@ -1,12 +1,20 @@
 import GorumsV.Props.C16
 import GorumsV.Generated.GenTable
+import GorumsV.Generated.GenPairs
 /-!
   Tie for C16: the table `Generated.genTable` is produced on every run by executing the real
   plugin (built from the working tree) on all 1 024 single-method services, several times each
   (gentool `gr table`).  `table_is_model` — checked by the kernel, row by row — says that the
   model `Gen` predicts every row: acceptance or the diagnostic's class, byte-identical output on
   every run, exactly the predicted client stub, no duplicate declaration, the server handler
-  shape, the quorum-function entry, per-node wiring and the method-name strings.
+  shape, the quorum-function entry, per-node wiring and the method-name strings (the method of a
+  row has a proto name, `foo_bar`, that differs from its Go name).
+
+  `Generated.genPairs` (gentool `gr pairs`) is produced by plugin invocations with TWO files to
+  generate, whose services have a method of the same name: an accepted row first, then row `b` —
+  every rejected row and a sample of accepted ones.  `pairs_is_model` says that the decision about
+  `b` is the model's decision about `b` alone, and that an accepted `b` yields byte-identical code:
+  the generator's behaviour on a request is its behaviour per method.
 -/
 namespace GorumsV.Tie.C16
 open GorumsV.Gen GorumsV.Generated GorumsV
@@ -40,6 +48,26 @@ theorem plugin_total_and_deterministic :
     genTable.all (fun r => (r.outcome == "diag" || (r.outcome == "ok" && r.dupDecls == 0 && r.stubs.length == 1)) && r.deterministic) = true := by
   decide +kernel
 
+/-- the options of the row with this id (inverse of `idOf`) -/
+def optsOfId (n : Nat) : Opts :=
+  ⟨n % 2 == 1, n / 2 % 2 == 1, n / 4 % 2 == 1, n / 8 % 2 == 1, n / 16 % 2 == 1, n / 32 % 2 == 1,
+   n / 64 % 2 == 1, n / 128 % 2 == 1, n / 256 % 2 == 1, n / 512 % 2 == 1⟩
+
+/-- does the model predict what the plugin did with row `b` generated after the accepted first row -/
+def pairOK (e : GenPair) : Bool :=
+  (validate (optsOfId genPairFirst)).isNone && e.pairOutcome == e.singleOutcome && e.pairClass == e.singleClass && e.sameOutput &&
+  match validate (optsOfId e.b) with
+  | some cls => e.pairOutcome == "diag" && e.pairClass == cls
+  | none => e.pairOutcome == "ok"
+
+/-- **the decision about a method does not depend on the other files of the request** -/
+theorem pairs_is_model : genPairs.all pairOK = true := by decide +kernel
+
+/-- the pairs cover every rejected option combination (992 of the 1 024), in id order -/
+theorem pairs_cover_rejected :
+    (genPairs.filter (fun e => (validate (optsOfId e.b)).isSome)).map (·.b)
+      = (List.range 1024).filter (fun n => (validate (optsOfId n)).isSome) := by decide +kernel
+
 end GorumsV.Tie.C16
 
 section Audit
@@ -47,6 +75,8 @@ open GorumsV.Tie.C16 GorumsV.C16
 #print axioms table_complete
 #print axioms table_is_model
 #print axioms plugin_total_and_deterministic
+#print axioms pairs_is_model
+#print axioms pairs_cover_rejected
 #print axioms forall_of_all
 #print axioms accepted_one_stub
 #print axioms accepts_documented
